@@ -14,6 +14,7 @@
 
 #include <sys/stat.h>
 #include <stdlib.h>
+#include <stddef.h>
 #include <dirent.h>
 #include <string.h>
 #include <errno.h>
@@ -26,14 +27,77 @@ typedef struct {
 	dev_t device;
 	int state;
 	DIR *dir;
+
+	/* all entries of the directory, sorted by name */
+	struct dirent **list;
+	size_t count;
+	size_t idx;
 } unix_dir_iterator_t;
 
 static void dir_destroy(sqfs_object_t *obj)
 {
 	unix_dir_iterator_t *it = (unix_dir_iterator_t *)obj;
 
+	while (it->count > 0)
+		free(it->list[--(it->count)]);
+
+	free(it->list);
 	closedir(it->dir);
 	free(it);
+}
+
+static int compare_names(const void *lhs, const void *rhs)
+{
+	const struct dirent *const *l = lhs, *const *r = rhs;
+
+	return strcmp((*l)->d_name, (*r)->d_name);
+}
+
+/*
+  The order in which readdir() returns entries depends on the underlying
+  filesystem. Read the whole directory and sort it, so that everything
+  built on top sees the same sequence for the same directory contents.
+ */
+static int read_entries_sorted(unix_dir_iterator_t *it)
+{
+	struct dirent *ent, *copy, **list;
+	size_t size;
+
+	for (;;) {
+		errno = 0;
+		ent = readdir(it->dir);
+		if (ent == NULL)
+			break;
+
+		size = offsetof(struct dirent, d_name) + strlen(ent->d_name) + 1;
+		if (size < sizeof(*ent))
+			size = sizeof(*ent);
+
+		copy = calloc(1, size);
+		list = realloc(it->list, sizeof(list[0]) * (it->count + 1));
+		if (copy == NULL || list == NULL) {
+			free(copy);
+			if (list != NULL)
+				it->list = list;
+			return SQFS_ERROR_ALLOC;
+		}
+
+		memcpy(copy, ent, offsetof(struct dirent, d_name));
+		strcpy(copy->d_name, ent->d_name);
+
+		it->list = list;
+		it->list[it->count++] = copy;
+	}
+
+	if (errno != 0)
+		return SQFS_ERROR_IO;
+
+	if (it->count > 1) {
+		qsort(it->list, it->count, sizeof(it->list[0]),
+		      compare_names);
+	}
+
+	return 0;
 }
 
 static int dir_read_link(sqfs_dir_iterator_t *base, char **out)
@@ -84,18 +148,13 @@ static int dir_next(sqfs_dir_iterator_t *base, sqfs_dir_entry_t **out)
 	if (it->state != 0)
 		return it->state;
 
-	errno = 0;
-	it->ent = readdir(it->dir);
-
-	if (it->ent == NULL) {
-		if (errno != 0) {
-			it->state = SQFS_ERROR_IO;
-		} else {
-			it->state = 1;
-		}
-
+	if (it->idx >= it->count) {
+		it->ent = NULL;
+		it->state = 1;
 		return it->state;
 	}
+
+	it->ent = it->list[it->idx++];
 
 	if (fstatat(dirfd(it->dir), it->ent->d_name,
 		    &it->sb, AT_SYMLINK_NOFOLLOW)) {
@@ -198,6 +257,7 @@ static int dir_open_subdir(sqfs_dir_iterator_t *base, sqfs_dir_iterator_t **out)
 static int create_iterator(sqfs_dir_iterator_t **out, DIR *dir)
 {
 	unix_dir_iterator_t *it = calloc(1, sizeof(*it));
+	int ret;
 
 	if (it == NULL) {
 		closedir(dir);
@@ -216,6 +276,15 @@ static int create_iterator(sqfs_dir_iterator_t **out, DIR *dir)
 
 	sqfs_object_init(it, dir_destroy, NULL);
 	it->device = it->sb.st_dev;
+
+	ret = read_entries_sorted(it);
+	if (ret != 0) {
+		int err = errno;
+		dir_destroy((sqfs_object_t *)it);
+		errno = err;
+		return ret;
+	}
+
 	((sqfs_dir_iterator_t *)it)->next = dir_next;
 	((sqfs_dir_iterator_t *)it)->read_link = dir_read_link;
 	((sqfs_dir_iterator_t *)it)->open_subdir = dir_open_subdir;
